@@ -82,6 +82,25 @@ def strategy_(draw, tier):
     n_root, n_iso = draw(st.sampled_from([(0, 0), (0, 0), (1, 0), (0, 1), (1, 1), (2, 2)]))
     if n_root or n_iso:
         ts = G.add_root_and_isolated_mutations(ts, n_root, n_iso, draw(st.lists(st.integers(0, 15), min_size=1, max_size=6)))
+    # sites without mutations; in 1 case of 2 exactly as many as make the site and mutation tables the
+    # same length although some sites carry several mutations (boundary class: equal table sizes)
+    if draw(st.integers(0, 3)) == 0 and ts.num_sites > 0:
+        k = ts.num_mutations - ts.num_sites if draw(st.booleans()) else draw(st.integers(1, 3))
+        if k > 0:
+            t = ts.dump_tables()
+            used = set(t.sites.position)
+            L = ts.sequence_length
+            added = 0
+            for i in range(8 * k):
+                pos = L * ((0.137 + i * 0.6180339887498949) % 1.0)
+                if pos not in used and added < k:
+                    used.add(pos)
+                    t.sites.add_row(position=pos, ancestral_state="M")
+                    added += 1
+            t.sort()
+            t.build_index()
+            t.compute_mutation_parents()
+            ts = t.tree_sequence()
     # individuals
     pattern = draw(st.lists(st.sampled_from([2, 2, 2, 2, 1, 3, 0]), min_size=1, max_size=5))
     ts = G.add_individuals(ts, pattern)
